@@ -42,7 +42,7 @@ pub fn cfg(tier: &str) -> DeepCfg {
     if tier == "quick" {
         DeepCfg { seeds: 6, chunks: 4, chunk_len: 30, bias: 0.1 }
     } else {
-        DeepCfg { seeds: 48, chunks: 8, chunk_len: 50, bias: 0.1 }
+        DeepCfg { seeds: 24, chunks: 8, chunk_len: 50, bias: 0.1 }
     }
 }
 
@@ -312,7 +312,7 @@ pub fn transition_roots(prop: &str, tier: &str) -> Vec<Scenario> {
 }
 
 pub fn run_transitions(prop: &'static str, tier: &'static str) -> Report {
-    let (seeds, iterations) = if tier == "quick" { (3u64, 80usize) } else { (16, 250) };
+    let (seeds, iterations) = if tier == "quick" { (3u64, 80usize) } else { (8, 250) };
     let rs = transition_roots(prop, tier);
     let mut rep = Report::new();
     rep.count("deep_transition_scenarios", rs.len() as u64);
